@@ -863,7 +863,7 @@ impl Check for C02 {
             }
         });
         st.exhaustive.push("all 32x32 attribute subsets (no-loop, lock-on-active, agenda group, activation group, date window) on two equal-salience rules with a fixed activator rule and a fixed 9-call history".into());
-        let per = cli.n(3_000, 80_000);
+        let per = cli.n(3_000, 150_000);
         shards(cli, nthreads, st, |_shard, rng, st| {
             for _ in 0..per {
                 if cli.expired() {
